@@ -64,6 +64,15 @@ class SchedLock:
         self.name = name
 
     def acquire(self, *a, **k):
+        if MODE == "schedule" and CTL is not None and _tid() is not None:
+            # The *real* lock decides who gets in (a lock that is not shared between forked processes, or a
+            # lock object replaced by another one, must not be masked by a model of ours): after the grant the
+            # task tries without blocking; on failure it parks as 'blocked' until some release of this lock.
+            while True:
+                point("acquire", self.name)
+                if self.real.acquire(False):
+                    return True
+                point("blocked", self.name)
         point("acquire", self.name)
         return self.real.acquire(*a, **k)
 
@@ -235,6 +244,8 @@ class Controller:
         self.switches = 0
         self.holding = {}  # tid -> set of lock names
         self.midwrite = set()
+        self.waiting = {}  # tid -> (lock name, release count when it failed to acquire)
+        self.releases = {}  # lock name -> number of granted releases
 
     # ---- task side
     def park(self, tid, kind, detail):
@@ -248,7 +259,8 @@ class Controller:
     # ---- controller side
     def _blocked(self, tid):
         kind, detail = self.parked[tid]
-        return kind == "acquire" and self.owner.get(detail) is not None
+        # a task whose non-blocking acquire failed waits for the next release of that lock
+        return kind == "blocked" and self.waiting.get(tid) == (detail, self.releases.get(detail, 0))
 
     def _recv(self):
         if self.mode == "threads":
@@ -326,6 +338,11 @@ class Controller:
                     t = msg[1]
                     if msg[0] == "park":
                         self.parked[t] = (msg[2], msg[3])
+                        if msg[2] == "blocked":  # the acquire granted last did not succeed
+                            self.holding.setdefault(t, set()).discard(msg[3])
+                            if self.owner.get(msg[3]) == t:
+                                self.owner[msg[3]] = None
+                            self.waiting[t] = (msg[3], self.releases.get(msg[3], 0))
                     else:
                         if self.mode == "threads":
                             self.done[t] = msg[2]
@@ -351,6 +368,7 @@ class Controller:
                 elif kind == "release":
                     self.owner[detail] = None
                     self.holding.setdefault(t, set()).discard(detail)
+                    self.releases[detail] = self.releases.get(detail, 0) + 1
                 self.trace.append((t, kind, detail))
                 if self.on_grant:
                     self.on_grant(t, kind, detail)
